@@ -45,20 +45,21 @@ type Neg struct {
 
 // Case is a fully split request plus the message it was split from.
 type Case struct {
-	Verb        string `json:"verb"`
-	Tmpl        string `json:"tmpl"`
-	BodySel     string `json:"body_sel"` // "", "*", field
-	Path        string `json:"path"`
-	RawQuery    string `json:"raw_query"`
-	ContentType string `json:"content_type"`
-	Accept      string `json:"accept"` // response negotiation must not influence how the request is decoded
-	Gzip        bool   `json:"gzip"`
-	Body        []byte `json:"body"`
-	Chunks      []int  `json:"chunks"`
-	EOFWithLast bool   `json:"eof_with_last"`
-	Want        []byte `json:"want"` // wire form of the expected message
-	WantText    string `json:"want_text"`
-	Neg         *Neg   `json:"neg,omitempty"`
+	Later       bool     `json:"later"` // another service is registered on the mux after the one under test
+	Verb        string   `json:"verb"`
+	Tmpl        string   `json:"tmpl"`
+	BodySel     string   `json:"body_sel"` // "", "*", field
+	Path        string   `json:"path"`
+	RawQuery    string   `json:"raw_query"`
+	ContentType string   `json:"content_type"`
+	Accept      string   `json:"accept"` // response negotiation must not influence how the request is decoded
+	Gzip        bool     `json:"gzip"`
+	Body        []byte   `json:"body"`
+	Chunks      []int    `json:"chunks"`
+	EOFWithLast bool     `json:"eof_with_last"`
+	Want        []byte   `json:"want"` // wire form of the expected message
+	WantText    string   `json:"want_text"`
+	Neg         *Neg     `json:"neg,omitempty"`
 	Classes     []string `json:"classes"`
 }
 
@@ -93,7 +94,7 @@ func normalise(m proto.Message, bodySel string) {
 // Check sends the request and applies the oracle.
 func Check(c Case) (vs []evid.Violation, delivered bool) {
 	svc := dyn.Svc("C3", dyn.MethodSpec{Name: "Do", In: ".un.All", Out: ".un.All", Rule: httpRule(c)})
-	w := uni.WorldWith(svc)
+	w := uni.WorldWith(svc, dyn.Svc("C3Later", dyn.MethodSpec{Name: "Other", In: ".un.All", Out: ".un.All"}))
 	var got []proto.Message
 	sd := w.ServiceDesc("un.C3", func(ctx context.Context, fm string, req *dynamicpb.Message) (proto.Message, error) {
 		got = append(got, proto.Clone(req))
@@ -105,6 +106,13 @@ func Check(c Case) (vs []evid.Violation, delivered bool) {
 	}
 	if err := mux.VerifRegisterService(sd, nil); err != nil {
 		return []evid.Violation{evid.V("register", "", "rule %s %s body=%q rejected: %v", c.Verb, c.Tmpl, c.BodySel, err)}, false
+	}
+	if c.Later {
+		// a later registration clones the routing state: the copy must carry every binding unchanged
+		later := w.ServiceDesc("un.C3Later", func(ctx context.Context, fm string, req *dynamicpb.Message) (proto.Message, error) { return req, nil }, nil)
+		if err := mux.VerifRegisterService(later, nil); err != nil {
+			panic(err)
+		}
 	}
 	hdr := http.Header{}
 	if c.ContentType != "" {
@@ -214,19 +222,19 @@ var pathFields = []string{"f_int32", "f_int64", "f_uint32", "f_uint64", "f_sint3
 	"nest.leaf.count", "nest.leaf.color", "nest.ratio", "w_int32", "w_bool", "dur", "o_string", "o_int64"}
 
 var negTexts = map[string][]string{
-	"int":   {"", "abc", "1.5", "1e3", "1.0", "+1", "0x10", " 1", "1 ", "01", "-", "--1", "1_000", "٣", "\"5\"", "\"abc\"", "null", "true", "[1]", "{}", "1,2"},
-	"int32": {"2147483648", "-2147483649", "99999999999999999999"},
-	"uint":  {"-1", "-0"},
-	"uint32": {"4294967296"},
-	"int64": {"9223372036854775808", "-9223372036854775809"},
-	"uint64": {"18446744073709551616"},
-	"float": {"", "abc", "1e999", "-1e999", ".5", "5.", "1e", "0x1p3", "NaN", "Infinity", "-Infinity", "inf", "+1.5", "1,5", "\"1.5\"", "null", "--1"},
+	"int":     {"", "abc", "1.5", "1e3", "1.0", "+1", "0x10", " 1", "1 ", "01", "-", "--1", "1_000", "٣", "\"5\"", "\"abc\"", "null", "true", "[1]", "{}", "1,2"},
+	"int32":   {"2147483648", "-2147483649", "99999999999999999999"},
+	"uint":    {"-1", "-0"},
+	"uint32":  {"4294967296"},
+	"int64":   {"9223372036854775808", "-9223372036854775809"},
+	"uint64":  {"18446744073709551616"},
+	"float":   {"", "abc", "1e999", "-1e999", ".5", "5.", "1e", "0x1p3", "NaN", "Infinity", "-Infinity", "inf", "+1.5", "1,5", "\"1.5\"", "null", "--1"},
 	"float32": {"1e39", "3.5e38"},
-	"bool":  {"", "TRUE", "True", "1", "0", "yes", "t", "\"true\"", "null", "truee"},
-	"enum":  {"", "red", "Red", "PURPLE", "RED ", "1.5", "99999999999", "\"RED\"", "null", "0x1"},
-	"bytes": {"a", "abcde", "!!!!", "ab=d", "a b", "====", "YQ=", "YQ===", "YW-/", "\"YQ==\""},
-	"ts":    {"", "2020", "2020-01-01", "2020-01-01T00:00:00", "2020-13-01T00:00:00Z", "0000-01-01T00:00:00Z", "10000-01-01T00:00:00Z", "1600000000", "2020-01-01T00:00:00.Z", "\"2020-01-01T00:00:00Z", "2020-01-01t00:00:00z"},
-	"dur":   {"", "1", "1.5", "s", "1m", "1.s", "1.0000000001s", "315576000001s", "--1s", "1 s", "1S", "\"1s"},
+	"bool":    {"", "TRUE", "True", "1", "0", "yes", "t", "\"true\"", "null", "truee"},
+	"enum":    {"", "red", "Red", "PURPLE", "RED ", "1.5", "99999999999", "\"RED\"", "null", "0x1"},
+	"bytes":   {"a", "abcde", "!!!!", "ab=d", "a b", "====", "YQ=", "YQ===", "YW-/", "\"YQ==\""},
+	"ts":      {"", "2020", "2020-01-01", "2020-01-01T00:00:00", "2020-13-01T00:00:00Z", "0000-01-01T00:00:00Z", "10000-01-01T00:00:00Z", "1600000000", "2020-01-01T00:00:00.Z", "\"2020-01-01T00:00:00Z", "2020-01-01t00:00:00z"},
+	"dur":     {"", "1", "1.5", "s", "1m", "1.s", "1.0000000001s", "315576000001s", "--1s", "1 s", "1S", "\"1s"},
 }
 
 func negFamily(fd protoreflect.FieldDescriptor) []string {
@@ -592,6 +600,10 @@ func genCase(t *rapid.T) Case {
 			}
 			c.EOFWithLast = rapid.Bool().Draw(t, "eofWithLast")
 		}
+	}
+	c.Later = rapid.IntRange(0, 3).Draw(t, "later") == 0
+	if c.Later {
+		c.Classes = append(c.Classes, "later-registration-on-the-mux")
 	}
 	c.Accept = rapid.SampledFrom([]string{"", "", "", "application/json", "application/protobuf", "*/*", "application/octet-stream;q=0.5, application/json;q=0.1", "text/html"}).Draw(t, "accept")
 	// classes
